@@ -35,6 +35,7 @@ type SpecEnv struct {
 	// when evaluating at a call site, fresh(x) in ensures is an assumption
 	mode      string        // "assume" | "prove"
 	freshBase int64         // regions > freshBase are "allocated during the call"
+	addrs     map[string]TV // address-taken locals: name -> (address, element type); lvalues in modifies
 	loopEntry *State        // state when the enclosing loop was entered (entry(e))
 	prevSt    *State        // state at the head of the current iteration (prev(e), step clauses only)
 	prevVars  map[string]TV // variables at the head of the current iteration
@@ -952,6 +953,10 @@ var specBuiltins = map[string]func(e *SpecEnv, args []TV) TV{}
 // lvalAddr: address and type of an addressable expression (x.F, x.F.G, *p, s[i]).
 func (e *SpecEnv) lvalAddr(n *Node) (*Term, types.Type) {
 	switch n.Kind {
+	case "ident":
+		if a, ok := e.addrs[n.Name]; ok {
+			return a.V.(*Term), a.T
+		}
 	case "paren":
 		return e.lvalAddr(n.Args[0])
 	case "unary":
